@@ -1,14 +1,18 @@
 #!/bin/bash
 # usage: seed_launch.sh <PID>   -> creates worktree /tmp/seed-<PID> and prints the filled-in prompt
-pid="$1"; wt="/tmp/seed-$pid"
+pid="$1"; sfx="${2:-}"; wt="/tmp/seed-$pid$sfx"
 git -C /repo worktree remove --force "$wt" 2>/dev/null; rm -rf "$wt"
 git -C /repo worktree add --detach "$wt" HEAD >/dev/null 2>&1 || exit 1
-python3 - "$pid" "$wt" <<'PY'
+python3 - "$pid" "$wt" "$sfx" <<'PY'
 import json,sys
-pid,wt=sys.argv[1:3]
+pid,wt,sfx=sys.argv[1:4]
 p=[json.loads(l) for l in open('/verif/properties.jsonl') if json.loads(l)['id']==pid][0]
 prop=f"Title: {p['title']}\nStatement: {p['statement']}\nQuantifier: {p['quantifier']['text']}\nWhy the existing tests cannot settle it: {p['why_tests_cant']}\nAnchored files: {', '.join(p['anchors']['files'])}"
 t=open('/verif/tools/seed_prompt.md').read().replace('{WT}',wt).replace('{PID}',pid).replace('{PROP}',prop)
-open(f'/tmp/seed-prompt-{pid}.md','w').write(t)
-print(f'/tmp/seed-prompt-{pid}.md')
+if sfx:
+    t=t.replace("YOUR TASK:", '''IMPORTANT CONTEXT FOR THIS ROUND: a verification team already tests this property with strong generated-input machinery (hundreds of thousands of random inputs / operation sequences per run, exhaustive enumeration of small cases and of single-parameter boundary values, reference models). Simple off-by-one or dropped-check changes on a main path are found by it within seconds. Your change should survive that kind of testing as long as possible while still clearly violating the property and still being a realistic regression: make the failure depend on a CONJUNCTION of two or three individually unremarkable conditions (a particular mode AND a particular size AND a particular previous operation), on deep state reached only by a specific longer sequence, on a rarely used option or code path, or on a specific value combination that uniform random sampling is unlikely to hit - but not on an absurd magic constant nobody would write.
+
+YOUR TASK:''',1)
+open(f'/tmp/seed-prompt-{pid}{sfx}.md','w').write(t)
+print(f'/tmp/seed-prompt-{pid}{sfx}.md')
 PY
